@@ -43,3 +43,42 @@ Theorem c18_truncation_rejected : forall bs b, read_batch bs = Ok (b, []) ->
   forall k, (k < length bs)%nat -> exists e, read_batch (firstn k bs) = Err e.
 Proof. exact read_batch_truncated. Qed.
 Print Assumptions c18_truncation_rejected.
+
+(* ---- "writing the returned batch back reproduces the original bytes" (Records/BatchRoundtrip.v).
+   prepared_ok b: the eleven header fields within their widths, every record within range (deltas,
+   timestamps Python can hold, lengths below 2^31), batch_length and crc as the format derives them
+   from the encoded body - i.e. b is a batch a conforming producer or broker holds.  For EVERY such
+   batch, with any bytes following it, kio's reader (as modelled) returns exactly the batch written,
+   except that record timestamps come back floored to whole seconds. *)
+From KioV Require Import Records.BatchRoundtrip.
+
+Theorem c18_reader_inverts_writer : forall b bs tl,
+  prepared_ok b = true -> write_prepared_batch b = Ok bs ->
+  read_batch (bs ++ tl) = Ok (floor_seconds b, tl).
+Proof. exact read_write_prepared. Qed.
+Print Assumptions c18_reader_inverts_writer.
+
+(* for batches whose record timestamps are whole seconds the clause holds in full *)
+Theorem c18_rewrite_reproduces_partial : forall b bs, prepared_ok b = true ->
+  forallb (fun r => (r_timestamp r mod 1000000 =? 0)%Z) (b_records b) = true ->
+  write_prepared_batch b = Ok bs ->
+  exists b', read_batch bs = Ok (b', []) /\ write_prepared_batch b' = Ok bs.
+Proof. exact rewrite_reproduces. Qed.
+Print Assumptions c18_rewrite_reproduces_partial.
+
+(* the FULL clause is false of the faithful model - this is the recorded known finding
+   C18-record-timestamp-whole-seconds as a theorem: re-writing what was read reproduces the bytes
+   exactly when no record has a millisecond part below the second *)
+Theorem c18_rewrite_reproduces_iff : forall b bs,
+  prepared_ok b = true -> write_prepared_batch b = Ok bs ->
+  (write_prepared_batch (floor_seconds b) = Ok bs <-> existsb subsecond_ms (b_records b) = false).
+Proof. exact rewrite_differs_only_by_subsecond. Qed.
+Theorem c18_rewrite_reproduces_refuted : forall b bs, prepared_ok b = true ->
+  existsb subsecond_ms (b_records b) = true -> write_prepared_batch b = Ok bs ->
+  exists b', read_batch bs = Ok (b', []) /\ write_prepared_batch b' <> Ok bs.
+Proof. exact rewrite_reproduces_refuted. Qed.
+Print Assumptions c18_rewrite_reproduces_refuted.
+
+(* non-vacuity: a concrete two-record batch (one sub-second timestamp) meets prepared_ok *)
+Example c18_prepared_nonvacuous : prepared_ok ex_batch = true /\ existsb subsecond_ms (b_records ex_batch) = true.
+Proof. vm_compute. split; reflexivity. Qed.
